@@ -196,7 +196,7 @@ Definition check_index (c : index_case) : list string :=
    [oo_manifest] image manifest annotations, [oo_index] index annotations *)
 Record options_case := {
   op_ic : image_config; op_cl : list (string * string); op_times : nat;
-  op_dates : list date_opt; op_env : option Z;
+  op_dates : list date_opt; op_env : option string;
   oo_err : bool; oo_annotations : list (string * string); oo_vcs : string; oo_date : Z;
   oo_labels : list (string * string); oo_manifest : list (string * string); oo_index : list (string * string) }.
 
@@ -209,24 +209,30 @@ Definition check_options (c : options_case) : list string :=
   let merged := with_annotations_n (op_times c) cfg (op_cl c) (akeys (op_cl c)) in
   let merged' := with_annotations_n (op_times c) cfg (op_cl c) (rev (akeys (op_cl c))) in
   let ic' := set_annotations (op_ic c) merged in
-  match declared_date (op_dates c) (op_env c) with
+  match declared_date_env (op_dates c) (op_env c) with
   | Ok date =>
+      let in_range := Z.leb rfc3339_min date && Z.leb date rfc3339_max in
       if oo_err c then ["mismatch:options-model-succeeds-impl-fails"]
       else
         tag_if (negb (labels_eqb merged (oo_annotations c))) "mismatch:options-annotations" ++
         tag_if (negb (labels_eqb merged merged')) "mismatch:model-order-dependent" ++
         tag_if (negb (String.eqb (ic_vcs_url (op_ic c)) (oo_vcs c))) "mismatch:options-vcs-url" ++
         tag_if (negb (Z.eqb date (oo_date c))) "mismatch:options-date" ++
-        tag_if (negb (emitted_as_model format_rfc3339 ic' date (oo_labels c))) "mismatch:options-labels" ++
-        tag_if (negb (emitted_as_model format_rfc3339 ic' date (oo_index c))) "mismatch:options-index-annotations" ++
+        (* outside the serialisable range the emitters are not run (BuildImageFromLayers fails: c12_image_unserialisable_time) *)
+        tag_if (in_range && negb (emitted_as_model format_rfc3339 ic' date (oo_labels c))) "mismatch:options-labels" ++
+        tag_if (in_range && negb (emitted_as_model format_rfc3339 ic' date (oo_index c))) "mismatch:options-index-annotations" ++
         (* what the property demands of the REAL output *)
-        (if Nat.eqb (op_times c) 0 then []
+        (if Nat.eqb (op_times c) 0 || negb in_range then []
          else cmdline_annotations_tags "config-labels" (op_ic c) (op_cl c) (oo_labels c) ++
               cmdline_annotations_tags "manifest-annotations" (op_ic c) (op_cl c) (oo_manifest c) ++
               cmdline_annotations_tags "index-annotations" (op_ic c) (op_cl c) (oo_index c)) ++
         (match op_env c with
-         | Some e => tag_if (Z.leb rfc3339_min e && Z.leb e rfc3339_max &&
-                             negb (denotes (alookup created_key (oo_labels c)) e)) "viol:source-date-epoch-not-the-created-label"
+         | Some v => match parse_int64 v with
+                     | Some e => tag_if (Z.leb rfc3339_min e && Z.leb e rfc3339_max &&
+                                         negb (denotes (alookup created_key (oo_labels c)) e &&
+                                               denotes (alookup created_key (oo_index c)) e)) "viol:source-date-epoch-not-the-created-text"
+                     | None => []
+                     end
          | None => []
          end)
   | Err => tag_if (negb (oo_err c)) "mismatch:options-model-fails-impl-succeeds"
